@@ -15,6 +15,13 @@ CHECKS = {
         "Trusted: foamdict reader, blockMesh hex edge convention (mc/blockmesh_ref.py), union-find family model. Unit-cube cells, <=4 blocks, insertion order = cell order.",
         "DESIGN.md 5 C01",
     ),
+    "C03": (
+        "exploration",
+        "exhaustive enumeration of a finite numeric lattice (all 10 parameter pairs x lengths x value grids united with two-sided neighbourhoods of every branch constant), three-valued geometric-progression reference model",
+        "Every lattice point is evaluated with Chop.calculate on the real library, its inversion and 1-3 section gradings; accepted results must reproduce the given parameters under blockMesh's progression (never coarser than requested, not more cells than needed), realisable sets must be accepted, unrealisable ones rejected.",
+        "Says nothing off the lattice. Tolerances from the library's TOL=1e-7 and scipy brentq's xtol. Reference model mc/props/c03.py.",
+        "DESIGN.md 5 C03",
+    ),
     "C02": (
         "model_checking",
         "stateless model checking of the implementation: choice-point explorer over set iteration orders (iterative deviation bounding) x exhaustive insertion orders / corner numberings / chop placements of small lattice assemblies, edge-family reference model",
